@@ -266,3 +266,92 @@ theorem register_outcome (lm : List Int) (v : Value) (h : v.type = .QubitArray) 
   by_cases ha : v.qubitArray.all (fun q => (lastOf lm q).isSome) = true <;> simp [ha]
 
 end BlochVerif.Props.C17
+
+/-! ## every scope exit records each tracked variable exactly once -/
+namespace BlochVerif.Props.C17
+open BlochVerif.Eval
+
+theorem bump_preserves_nodup (tr : List (String × String × Nat)) (hnd : TrNodup tr) (key outcome : String) :
+    TrNodup (bump tr key outcome) := by
+  unfold bump
+  by_cases hany : tr.any (fun t => decide (t.1 = key ∧ t.2.1 = outcome)) = true
+  · rw [if_pos hany]
+    unfold TrNodup at hnd ⊢
+    have : (tr.map (fun t => if t.1 = key ∧ t.2.1 = outcome then (t.1, t.2.1, t.2.2 + 1) else t)).map (fun t => (t.1, t.2.1)) =
+        tr.map (fun t => (t.1, t.2.1)) := by
+      rw [List.map_map]
+      apply List.map_congr_left
+      intro t _
+      simp only [Function.comp]
+      split <;> rfl
+    rw [this]; exact hnd
+  · rw [if_neg hany]
+    unfold TrNodup at hnd ⊢
+    rw [List.map_append, List.map_cons, List.map_nil]
+    refine List.nodup_append.mpr ⟨hnd, by simp, ?_⟩
+    intro a ha b hb
+    simp only [List.mem_singleton] at hb
+    subst hb
+    intro heq
+    apply hany
+    obtain ⟨t, ht, hte⟩ := List.mem_map.mp ha
+    refine List.any_eq_true.mpr ⟨t, ht, ?_⟩
+    have h1 : t.1 = key := by have := congrArg Prod.fst (hte.trans heq); simpa using this
+    have h2 : t.2.1 = outcome := by have := congrArg Prod.snd (hte.trans heq); simpa using this
+    simp [h1, h2]
+
+/-- what one variable of the ending scope contributes -/
+def recordEntry (lm : List Int) (tr : List (String × String × Nat)) (kv : String × VarEntry) :
+    List (String × String × Nat) :=
+  if !kv.2.tracked then tr else
+  match trackedOutcome lm kv.2.value with
+  | some (pre, outcome) => bump tr (pre ++ kv.1) outcome
+  | none => tr
+
+/-- the key under which a variable of the ending scope is recorded, if it is recorded at all -/
+def recordKey (lm : List Int) (kv : String × VarEntry) : Option String :=
+  if !kv.2.tracked then none else (trackedOutcome lm kv.2.value).map (fun po => po.1 ++ kv.1)
+
+theorem recordEntry_total (lm : List Int) (tr : List (String × String × Nat)) (hnd : TrNodup tr)
+    (kv : String × VarEntry) (k : String) :
+    TrNodup (recordEntry lm tr kv) ∧
+    trTotal (recordEntry lm tr kv) k = trTotal tr k + (if recordKey lm kv = some k then 1 else 0) := by
+  unfold recordEntry recordKey
+  by_cases ht : kv.2.tracked = true
+  · simp only [ht, Bool.not_true, Bool.false_eq_true, if_false]
+    cases ho : trackedOutcome lm kv.2.value with
+    | none => simp [hnd]
+    | some po =>
+      obtain ⟨pre, outcome⟩ := po
+      simp only [Option.map_some, Option.some.injEq]
+      exact ⟨bump_preserves_nodup tr hnd _ _, bump_adds_exactly_one tr hnd _ _ k⟩
+  · simp [ht, hnd]
+
+/-- Ending a scope adds, for every variable key, exactly the number of tracked qubits / registers of that scope
+recorded under that key — one outcome per tracked variable per exit, nothing for the others. -/
+theorem scope_exit_records_each_tracked_variable_once (lm : List Int) (top : List (String × VarEntry))
+    (tr : List (String × String × Nat)) (hnd : TrNodup tr) (k : String) :
+    TrNodup (top.foldl (recordEntry lm) tr) ∧
+    trTotal (top.foldl (recordEntry lm) tr) k =
+      trTotal tr k + (top.filter (fun kv => recordKey lm kv = some k)).length := by
+  induction top generalizing tr with
+  | nil => simp [hnd]
+  | cons kv rest ih =>
+    obtain ⟨h1, h2⟩ := recordEntry_total lm tr hnd kv k
+    obtain ⟨h3, h4⟩ := ih (recordEntry lm tr kv) h1
+    refine ⟨by simpa using h3, ?_⟩
+    simp only [List.foldl_cons, h4, h2, List.filter_cons]
+    by_cases hk : recordKey lm kv = some k
+    · simp [hk]; omega
+    · simp [hk]
+
+/-- the evaluator model's `endScope` is that fold over the innermost scope -/
+theorem endScope_is_the_fold (st : EState) (top : List (String × VarEntry)) (rest : List Scope)
+    (he : st.env = top :: rest) :
+    ∃ st', endScope.run st = .ok ((), st') ∧ st'.env = rest ∧
+      st'.tracked = top.foldl (recordEntry st.lastMeasurement) st.tracked := by
+  unfold endScope
+  simp only [modify, modifyGet, MonadStateOf.modifyGet, StateT.modifyGet, StateT.run, pure, Except.pure, he]
+  exact ⟨_, rfl, rfl, rfl⟩
+
+end BlochVerif.Props.C17
